@@ -5,7 +5,9 @@
   at ℝ.  IEEE rounding is not modelled ("all reported values are finite" is vacuous over ℝ
   and is monitored on the real floats by the harness).
 
-  Proof status: the step lemmas are full; the run invariant (`run_admissible_partial`) is
+  Proof status: `liquid_convex`, `jump_on_curve`, `ice_iff_after_nucleation` are full;
+  `solid_step_inv`, `vial_inv`, `step_inv` are CONDITIONAL on the side condition below; the run
+  theorems (`run_admissible_partial`, `run_bounds_partial`, `run_ice_iff_recorded`) are
   PARTIAL: it assumes, at every step, the side condition `SideCond` for vials that contain ice
   and are being WARMED (net heat flow `q > 0`): `q·Δt ≤ σ·m·λ(1−w_s)` — the ice present can
   absorb the heat.  It is not derivable from `Stable` (see `side_condition_needed`): a vial that
@@ -151,7 +153,8 @@ theorem adm_solid {ph : Phys} {v : Vial ℝ} (h : Adm ph v) (hl : v.sigma ≠ 0)
   · exact absurd h.1 hl
   · exact h
 
-/-- one vial, one step: admissibility and bounds are preserved -/
+/-- one vial, one step: admissibility and bounds are preserved — CONDITIONAL on the side
+condition `hside` for this vial (the hypothesis that makes the run theorem partial) -/
 theorem vial_inv {ph : Phys} {p : Params ℝ} {n : Nat} {lo0 hi : ℝ} (st : Stable ph p n lo0 hi)
     (i : Nat) (hi' : i < n) (Ts : Array ℝ) (Tsh lo : ℝ) (hlo0 : lo0 ≤ lo)
     (hsh : lo ≤ Tsh ∧ Tsh ≤ hi)
@@ -203,7 +206,7 @@ theorem vial_inv {ph : Phys} {p : Params ℝ} {n : Nat} {lo0 hi : ℝ} (st : Sta
     refine ⟨Or.inr ⟨hs.1, hs.2.1, hs.2.2.1, hnuc⟩, hs.2.2.2.1, ?_⟩
     exact le_trans (le_of_lt hs.2.2.2.2) st.hi_ge
 
-/-- **one step of the batch**: with all temperatures in `[lo, hi]` and a shelf temperature
+/-- **one step of the batch** (CONDITIONAL on `SideCond` for the state): with all temperatures in `[lo, hi]` and a shelf temperature
 `Tsh ∈ [lo0, lo]` (the shelf never rises), after the step all vials are admissible and all
 temperatures are in `[Tsh, hi]` — no vial is colder than the shelf temperature just applied. -/
 theorem step_inv {ph : Phys} {p : Params ℝ} {n : Nat} {lo0 hi : ℝ} (st : Stable ph p n lo0 hi)
